@@ -558,3 +558,28 @@ func (c *Ctx) onlyCalledFrom(fn, root *ssa.Function, depth int) bool {
 	}
 	return n > 0
 }
+
+// abortPropagates: httputil.ReverseProxy aborts a response whose backend died mid-body by panicking
+// with http.ErrAbortHandler; net/http then closes the client connection, which is how the client
+// learns the body is incomplete.  On every path of LoadBalancer.ServeHTTP on which the proxy call
+// panics, the handler is therefore left by that panic: a recover() that swallows it lets net/http
+// finish the response normally (terminating chunk, keep-alive) and a truncated body is presented as
+// complete (C01, C03).
+func (c *Ctx) abortPropagates() {
+	p := c.P
+	serve := p.Fn("internal/loadbalancer", "LoadBalancer", "ServeHTTP")
+	seen := 0
+	c.traceRule("abort-propagates", "loadbalancer.(*LoadBalancer).ServeHTTP", serve, c.lbSpec(),
+		"every path on which the reverse proxy aborts the response leaves ServeHTTP by that panic",
+		func(t *Trace) string {
+			if !t.Has("panic-in:(*net/http/httputil.ReverseProxy).ServeHTTP") {
+				return ""
+			}
+			seen++
+			if t.Exit != ExitPanic {
+				return "the panic with which the reverse proxy aborts a response (backend died mid-body) is swallowed: net/http completes the response normally and the client receives a truncated body as if it were whole"
+			}
+			return ""
+		})
+	c.Floor("abort-propagates", seen, 1, "paths on which the proxy call panics")
+}
